@@ -156,3 +156,18 @@ def force_valid(cc: str, bban: str):
         return None
     s, e = CHECK_FIELD[cc]
     return b[:s] + val + b[e:]
+
+
+def body_fill(cc: str, digits: str, length: int):
+    """A BBAN of `length` whose non-check positions carry the successive characters of `digits`
+    (so that countries with equally long bodies get the same concatenated components); the check
+    field is left as zeros for force_valid to fill."""
+    s, e = CHECK_FIELD.get(cc, (0, 0))
+    out, k = [], 0
+    for i in range(length):
+        if s <= i < e:
+            out.append("A" if cc in ("IT", "SM") else "0")
+        else:
+            out.append(digits[k % len(digits)])
+            k += 1
+    return "".join(out)
